@@ -657,6 +657,70 @@ def _check_facet(ctx, tag, normal, vs, tri):
         ctx.check(tag + '.normal_by_right_hand_rule', ctx.gt(sum(a * b for a, b in zip(normal, c)), 0), nonlinear=True)
 
 
+class _Tri(object):
+    def __init__(self, *vs):
+        self.vertices = list(vs)
+
+
+@scenario('C15', fns=['exchange.export_obj_str', 'exchange.export_off_str', 'exchange.export_stl_str',
+                      'tessellate.QuadTessellate.tessellate', '_tessellate.make_quad_mesh', 'linalg.triangle_normal'],
+          quick=[dict(fmt=f, samples=s) for f in ('obj', 'off', 'stl', 'stlb') for s in ([3, 2], [2, 4])])
+def export_quad_mesh(ctx, fmt, samples):
+    """requires: a valid surface whose tessellator is tessellate.QuadTessellate(), exported alone
+       ensures : OBJ / OFF describe exactly the quadrilateral mesh held by the surface: one vertex record per mesh vertex, one
+                 face record per quadrilateral listing its FOUR vertex ids in order (OFF: preceded by the count 4);
+                 STL (triangles only): a well-formed file with two facets per quadrilateral, (q0 q1 q2) and (q0 q2 q3), each
+                 with its normal by the right-hand rule; the binary file has 50 bytes per facet"""
+    ex, read3 = _exchange(ctx)
+    d = _surface_data(ctx, S_21, 's')
+    srf = _build(ctx, d)
+    srf.sample_size_u, srf.sample_size_v = samples
+    srf.tessellator = ctx.geomdl('tessellate').QuadTessellate()
+    if fmt == 'obj':
+        out = _call(ctx, 'export.call', ex.export_obj_str, srf, update_delta=False)
+    elif fmt == 'off':
+        out = _call(ctx, 'export.call', ex.export_off_str, srf, update_delta=False)
+    else:
+        out = _call(ctx, 'export.call', ex.export_stl_str, srf, binary=(fmt == 'stlb'), update_delta=False)
+    verts, quads = srf.tessellator.vertices, srf.tessellator.faces
+    nq = (samples[0] - 1) * (samples[1] - 1)
+    ctx.check_true('mesh.counts', len(verts) == samples[0] * samples[1] and len(quads) == nq and all(len(q.data) == 4 for q in quads))
+    if fmt in ('obj', 'off'):
+        one = 1 if fmt == 'obj' else 0
+        if fmt == 'off':
+            magic, head, fv, ff, rest = _read_off(ctx, out)
+            ctx.check_true('off.header_counts', magic == 'OFF' and head == [str(len(verts)), str(nq), '0'], 'header %r' % (head,))
+            ctx.check_true('off.face_records_start_with_their_vertex_count', all(len(f) == 5 and f[0] == 4 for f in ff),
+                           'face records %r' % (ff[:2],))
+            ff = [f[1:] for f in ff]
+        else:
+            fv, vp, vn, ff, other, closed = _read_obj(ctx, out)
+            ctx.check_true('obj.only_known_records', other == [] and closed)
+        ctx.check_true(fmt + '.vertex_count', len(fv) == len(verts))
+        ctx.check_true(fmt + '.face_count', len(ff) == nq, '%d face records for %d quadrilaterals' % (len(ff), nq))
+        for i, v in enumerate(verts):
+            ctx.check_eq_vec('%s.vertex%d' % (fmt, i), fv[i], v.data)
+        for i, q in enumerate(quads):
+            if i < len(ff):
+                ctx.check_true('%s.face%d.is_mesh_quadrilateral' % (fmt, i), [r - one for r in ff[i]] == list(q.data),
+                               'face record %r, mesh quadrilateral %r' % (ff[i], list(q.data)))
+    else:
+        if fmt == 'stl':
+            facets, ok = _read_stl_ascii(ctx, out)
+            ctx.check_true('stl.well_formed', ok)
+        else:
+            facets, count, ok = _read_stl_binary(out, read3)
+            ctx.check_true('stlb.well_formed', ok, 'length %d, count field %r' % (len(out), count))
+            ctx.check_true('stlb.count_field', count == 2 * nq, 'count field %r for %d quadrilaterals' % (count, nq))
+        ctx.check_true(fmt + '.facet_count', len(facets) == 2 * nq, '%d facets for %d quadrilaterals' % (len(facets), nq))
+        for i, q in enumerate(quads):
+            qv = q.vertices
+            for h, tri in enumerate((_Tri(qv[0], qv[1], qv[2]), _Tri(qv[0], qv[2], qv[3]))):
+                if 2 * i + h < len(facets):
+                    n, vs = facets[2 * i + h]
+                    _check_facet(ctx, '%s.quad%d.half%d' % (fmt, i, h), n, vs, tri)
+
+
 def _export_instances(tier):
     out = []
     for fmt in ('obj', 'off', 'stl', 'stlb'):
